@@ -139,7 +139,8 @@ def drive_text_pairs(ctx):
         if not ctx.mine(di):
             continue
         for tail in tails:
-            for text in (d + tail, (d + tail).replace('/', '\\')):
+            # three spellings: forward slashes, single backslashes (escapes), doubled backslashes (the separator as a pattern writes it)
+            for text in (d + tail, (d + tail).replace('/', '\\'), (d + tail).replace('/', '\\\\')):
                 wit = {'api': 'glob', 'patterns': text, 'flags': ['FORCEWIN'], 'mode': 'drive-texts'}
                 for fl in (G.FORCEWIN, G.FORCEWIN | G.NEGATE | G.MINUSNEGATE, G.FORCEWIN | G.BRACE | G.SPLIT | G.EXTGLOB, G.FORCEWIN | G.CASE):
                     pair(ctx, 'drive text: escape(unix=False)', wit, lambda: G.escape(text, unix=False), lambda: G.escape(enc(text), unix=False))
